@@ -589,7 +589,10 @@ impl<'a> Parser<'a> {
             return None;
         };
         self.pos += 4;
-        if unicode_mode && (0xD800..=0xDBFF).contains(&v) {
+        // "Units" (DESIGN.md Appendix A): a pattern is a sequence of code points in every mode, so
+        // an escaped surrogate pair denotes one supplementary code point without the u flag too.
+        let _ = unicode_mode;
+        if (0xD800..=0xDBFF).contains(&v) {
             // u HexLeadSurrogate \u HexTrailSurrogate
             if self.peek() == Some(C_BACKSLASH) && self.peek_at(1) == Some(ch('u')) {
                 if let Some(lo) = hex4(self, self.pos + 2) {
